@@ -389,10 +389,11 @@ def _run_faults(case):
                                     text = _text(header, rows, crlf, blank)
                                     open(os.path.join(work, "f.csv"), "w", newline="").write(text)
                                     true_line = 2 + bad_row + (1 if blank is not None and blank <= bad_row + 1 else 0)
-                                    res = _read(work, "f.csv", "A")
+                                    mv_ = -9999 if (bad_row + nrows + (0 if blank is None else blank)) % 2 else None  # (half of the files are read with MissingVal declared)
+                                    res = _read(work, "f.csv", "A", mv_)
                                     evals += 1
                                     judged += 1
-                                    tag = {"file": text, "field": "A", "bad_cell": badtext, "true_line": true_line}
+                                    tag = {"file": text, "field": "A", "bad_cell": badtext, "true_line": true_line, "MissingVal": mv_}
                                     sample = tag
                                     if res[0] != "err":
                                         viols.append(V("C17:fault:bad-cell-accepted", "non-numeric cell %r on line %d was read as %r" % (badtext, true_line, res[1]), **tag))
